@@ -73,8 +73,10 @@ func runHistory(c *vk.Ctx, cfg cfgT, hist []int, idx int64) bool {
 		}
 		c.Violate(key, fmt.Sprintf("step %d of [%s]: %s", step, desc, detail), replay)
 	}
+	// the initiator's configured credentials: both, password only (token authentication), user only, none
+	cred := [][2]string{{"me", "secret"}, {"", "token"}, {"me", ""}, {"", ""}, {"me", "secret"}}[(len(hist)+cfg.hb)%5]
 	scfg := rig.StepCfg{Role: cfg.role, HeartBtInt: cfg.hb, Limits: &session.IntLimits{Min: cfg.lim[0], Max: cfg.lim[1]},
-		Username: "me", Password: "secret",
+		Username: cred[0], Password: cred[1],
 		OnLogon: func(ls *session.LogonSettings) error {
 			if !rig.Approve(ls.Username, ls.Password) {
 				return errors.New("refused")
@@ -106,8 +108,9 @@ func runHistory(c *vk.Ctx, cfg cfgT, hist []int, idx int64) bool {
 			viol("C06/initiator-first-message-not-logon", "initiator emitted "+types(r.InitOuts)+" at start, want exactly one Logon", 0)
 		} else {
 			f := r.InitOuts[0].Fields
-			if fixref.GetS(f, rig.THeartBt) != strconv.Itoa(cfg.hb) || fixref.GetS(f, rig.TEncrypt) != "0" || fixref.GetS(f, rig.TUser) != "me" || fixref.GetS(f, rig.TPass) != "secret" {
-				viol("C06/initiator-logon-fields", fmt.Sprintf("initiator Logon carries 108=%s 98=%s 553=%s 554=%s, configured 108=%d 98=0 553=me 554=secret", fixref.GetS(f, rig.THeartBt), fixref.GetS(f, rig.TEncrypt), fixref.GetS(f, rig.TUser), fixref.GetS(f, rig.TPass), cfg.hb), 0)
+			c.SetAdd("initiator_credentials_configured", fmt.Sprintf("user=%v,password=%v", cred[0] != "", cred[1] != ""))
+			if fixref.GetS(f, rig.THeartBt) != strconv.Itoa(cfg.hb) || fixref.GetS(f, rig.TEncrypt) != "0" || fixref.GetS(f, rig.TUser) != cred[0] || fixref.GetS(f, rig.TPass) != cred[1] {
+				viol("C06/initiator-logon-fields", fmt.Sprintf("initiator Logon carries 108=%s 98=%s 553=%q 554=%q, configured 108=%d 98=0 553=%q 554=%q", fixref.GetS(f, rig.THeartBt), fixref.GetS(f, rig.TEncrypt), fixref.GetS(f, rig.TUser), fixref.GetS(f, rig.TPass), cfg.hb, cred[0], cred[1]), 0)
 			}
 		}
 		if r.S.IsLogged() {
